@@ -35,22 +35,47 @@ func StringSliceToTextArray(values []string) (pgtype.TextArray, error) {
 	return pgTextArray, pgTextArray.Set(values)
 }
 
+// emptySliceFor returns an empty slice of the type of value when value is a nil slice. Nil slices are not encoded by the
+// sql driver to an empty array but rather as a JSON `null`.
+func emptySliceFor(value any) (any, bool) {
+	if reflectValue := reflect.ValueOf(value); reflectValue.Kind() == reflect.Slice && reflectValue.IsNil() {
+		return reflect.MakeSlice(reflectValue.Type(), 0, 0).Interface(), true
+	}
+
+	return nil, false
+}
+
+func hasNilSlice(values map[string]any) bool {
+	for _, value := range values {
+		if _, isNilSlice := emptySliceFor(value); isNilSlice {
+			return true
+		}
+	}
+
+	return false
+}
+
 func MapStringAnyToJSONB(values map[string]any) (pgtype.JSONB, error) {
-	var jsonb pgtype.JSONB
+	var (
+		jsonb   pgtype.JSONB
+		encoded = values
+	)
 
-	for key, value := range values {
-		reflectValue := reflect.ValueOf(value)
+	// To avoid encoding nil slices as `null`, replace any nil slice reference with a new 0 capacity allocation. The map
+	// belongs to the caller (a query parameter, the properties of an entity), so the replacement is made in a copy of it.
+	if hasNilSlice(values) {
+		encoded = make(map[string]any, len(values))
 
-		if reflectValue.Kind() == reflect.Slice {
-			if reflectValue.IsNil() {
-				// Nil slices are not encoded by the sql driver to an empty array but rather as a JSON `null`. To avoid this, replace any
-				// nil slice reference with a new 0 capacity allocation.
-				values[key] = reflect.MakeSlice(reflectValue.Type(), 0, 0).Interface()
+		for key, value := range values {
+			if emptySlice, isNilSlice := emptySliceFor(value); isNilSlice {
+				encoded[key] = emptySlice
+			} else {
+				encoded[key] = value
 			}
 		}
 	}
 
-	return jsonb, jsonb.Set(values)
+	return jsonb, jsonb.Set(encoded)
 }
 
 func PropertiesToJSONB(properties *graph.Properties) (pgtype.JSONB, error) {
